@@ -1186,3 +1186,22 @@ func first(a, _ []byte) []byte { return a }
 //@   opt extent on
 //@   requires WF1in_compound(t)
 //@   ensures[pure] frame()
+
+// TopK / BottomK: a range-over-func loop over the sequence obtained through the Tree interface.
+// go/ssa lowers the loop body to a synthetic closure (topK$1$1) that the iterator calls once per
+// element; its state variable jump$1 (written jump_1 here) is 0 when the loop is ready for the
+// next element, -1 while the body runs, 1 / 2 after the body left the loop (remaining == 0 /
+// the consumer's yield returned false). The abstract iterator is assumed to obey the protocol
+// that C14 proves for this package's own iterators (sequential calls, none after false).
+//   requires (first call: proved where the iterator is called; later calls: ensures[reentry])
+//   closure_inv (no call yet / after every complete call): a consumer that has said stop is never
+//   asked again, because the loop was left for good (jump_1 == 2)
+//@ func {topK,bottomK}$1$1
+//@   requires jump_1 == 0
+//@   closure_inv 0 <= jump_1 && jump_1 <= 2 && implies(stopped(), jump_1 == 2)
+//@   ensures[reentry] implies(result, jump_1 == 0)
+//@   ensures[stop_propagates] implies(stopped(), !result)
+
+//@ func {topK,bottomK}$1
+//@   requires true
+//@   ensures[pure] frame()
